@@ -125,6 +125,19 @@ func c02Body(t *rapid.T, id, kind string, cfg c02Cfg, labels map[string]bool) *a
 			labels["program-writes-$file"] = true
 		}
 	}
+	if (kind == "pattern" || kind == "BEGINFILE") && rapid.IntRange(0, 5).Draw(t, "mutateroot") == 0 {
+		// the rule changes the selected root below its top level (no length changes): the
+		// roots of other selectors, of other values and of other files are trees of their own
+		mark := ast.Str("m-" + id)
+		stmts = append(stmts,
+			ast.If(ast.Is(ast.Dollar(), "object"), ast.Block(ast.ExprS(ast.Set(ast.Mem(ast.Dollar(), "k"), mark.Clone())),
+				ast.If(ast.Bin("&&", ast.Is(ast.Mem(ast.Dollar(), "items"), "array"), ast.Bin(">", ast.Method(ast.Mem(ast.Dollar(), "items"), "length"), ast.Num("0"))),
+					ast.Block(ast.ExprS(ast.Set(ast.Idx(ast.Mem(ast.Dollar(), "items"), ast.Num("0")), mark.Clone())))))),
+			ast.If(ast.Bin("&&", ast.Is(ast.Dollar(), "array"), ast.Bin(">", ast.Method(ast.Dollar(), "length"), ast.Num("0"))),
+				ast.Block(ast.ExprS(ast.Set(ast.Idx(ast.Dollar(), ast.Un("-", ast.Num("1"))), mark.Clone())))),
+			ast.Print(ast.Str(id+"-mut"), ast.Dollar()))
+		labels["rule-changes-the-root-below-top-level"] = true
+	}
 	if kind == "BEGINFILE" && cfg.rootReplaced && rapid.Bool().Draw(t, "assignroot") {
 		// assigning $ in BEGINFILE replaces the root for the pattern rules that follow
 		stmts = append(stmts, ast.ExprS(ast.Set(ast.Dollar(), c02Selector(t))), ast.Print(ast.Str(id+"-root"), ast.Dollar()))
